@@ -4,6 +4,7 @@ import subprocess
 
 from harness import cbuild
 from harness.core import Sub, Failure, HarnessError, Violation, REPO, VERIF, Ctx
+from harness.core import Recorder as core_Recorder
 
 RULE = ("finite domain enumerated completely: (a) firmware - unmodified mframe_sched.c with a recording tdma_schedule_set: for every "
         "multiframe task 0..28 and every FN of a full 51x26x8 cycle (10608 frames) the task alone is enabled and mframe_schedule() "
@@ -70,17 +71,21 @@ SUPPORTED = ["NONE", "CCCH", "CCCH_SDCCH4", "CCCH_SDCCH4_CBCH", "SDCCH8_SACCH8C"
 SINGLE = {"IDLE", "FCCH", "SCH", "RACH"}
 
 
-def build(ctx):
+def build(ctx, uchar=False):
     b = ctx.build
-    fw = [cbuild.compile_obj(os.path.join(REPO, "src/target/firmware/layer1/mframe_sched.c"), os.path.join(b, "mframe_sched.o"),
-                             cbuild.FW_INC + ["-fno-sanitize=shift-base"]),   # '1 << 31' on int is the firmware's idiom for task bit 31
-          cbuild.compile_obj(os.path.join(REPO, "src/shared/libosmocore/src/gsm/gsm_utils.c"), os.path.join(b, "gsm_utils.o"),
-                             cbuild.FW_INC + ["-I", os.path.join(cbuild.CSHIM, "fw/cfgdir/a/b")]),
-          cbuild.compile_obj(os.path.join(VERIF, "c", "drv_mframe_fw.c"), os.path.join(b, "drv_fw.o"), cbuild.FW_INC)]
+    # the firmware's real target is ARM, where plain 'char' is unsigned: the firmware side is built and enumerated twice, with the
+    # host's signed char and with -funsigned-char
+    uc = ["-funsigned-char"] if uchar else []
+    sfx = "_uc" if uchar else ""
+    fw = [cbuild.compile_obj(os.path.join(REPO, "src/target/firmware/layer1/mframe_sched.c"), os.path.join(b, "mframe_sched%s.o" % sfx),
+                             cbuild.FW_INC + ["-fno-sanitize=shift-base"] + uc),   # '1 << 31' on int is the firmware's idiom for task bit 31
+          cbuild.compile_obj(os.path.join(REPO, "src/shared/libosmocore/src/gsm/gsm_utils.c"), os.path.join(b, "gsm_utils%s.o" % sfx),
+                             cbuild.FW_INC + ["-I", os.path.join(cbuild.CSHIM, "fw/cfgdir/a/b")] + uc),
+          cbuild.compile_obj(os.path.join(VERIF, "c", "drv_mframe_fw.c"), os.path.join(b, "drv_fw%s.o" % sfx), cbuild.FW_INC + uc)]
     stubs = os.path.join(b, "stubs.c")
     cbuild.weak_stubs(fw, stubs)
     fw.append(cbuild.compile_obj(stubs, os.path.join(b, "stubs.o"), [], sanitize=False))
-    exe_fw = cbuild.link(fw, os.path.join(b, "drv_mframe_fw"))
+    exe_fw = cbuild.link(fw, os.path.join(b, "drv_mframe_fw" + sfx))
     inc = ["-I", os.path.join(cbuild.CSHIM, "osmo"), "-I", os.path.join(REPO, "src/host/trxcon/include"),
            "-I", os.path.join(REPO, "src/shared/libosmocore/include"), "-include", "stdarg.h", "-include", "stdbool.h", "-D_GNU_SOURCE"]
     tc = [cbuild.compile_obj(os.path.join(REPO, "src/host/trxcon/src/sched_mframe.c"), os.path.join(b, "sched_mframe.o"), inc),
@@ -96,7 +101,20 @@ def run(exe, args=()):
 
 
 def check(ctx, rec):
-    exe_fw, exe_tc = build(ctx)
+    fails = check_variant(ctx, rec, False)
+    have = set(f.sig for f in fails)
+    for f in check_variant(ctx, rec, True):
+        if f.sig not in have:
+            f.sig += ":unsigned-char-build"
+            f.msg = "(firmware built with -funsigned-char, the ARM ABI) " + (f.msg or "")
+            if isinstance(f.case, dict):
+                f.case = dict(f.case, unsigned_char=True)
+            fails.append(f)
+    return fails
+
+
+def check_variant(ctx, rec, uchar):
+    exe_fw, exe_tc = build(ctx, uchar)
     fails, sigs = [], set()
 
     def fail(sig, msg, case):
@@ -267,7 +285,13 @@ def check(ctx, rec):
 
 
 def replay(case):
-    raise HarnessError("C11 is exhaustive and deterministic: re-run the check to reproduce")
+    """the domain is finite and enumerated completely: replaying = running the enumeration again (both firmware builds)"""
+    fails = check(Ctx("C11", "quick", 1), core_Recorder("tables"))
+    for f in fails:
+        if not isinstance(case, dict) or not case or all(f.case.get(k) == v for k, v in case.items() if isinstance(f.case, dict)):
+            raise Violation(f.sig, f.msg)
+    if fails:
+        raise Violation(fails[0].sig, fails[0].msg)
 
 
 SUBS = [Sub("tables", fn=check)]
